@@ -116,8 +116,17 @@ def run_case(case, ctx):
         win = None if w is None else pandas.Series(w, index=ix)
         if cont == "frame+series":
             Xin = pandas.DataFrame(X, columns=["id", "a", "b"], index=ix)
+    from vrt import layouts
+    lay = layouts.pick(case["sub"], 6)
+    via = (case["sub"] // 3) % 4 == 0
+    cfg["layout"], cfg["configured_with"] = lay, "set_params" if via else "constructor"
+    ctx.cls("layout=" + lay)
+    if cont == "ndarray":
+        Xin, yin, win = layouts.relayout(X, lay), layouts.relayout(y, lay), layouts.relayout(w, lay)
     numpy.random.seed(case["sub"] % (2 ** 31))
-    ir = IntervalRegressor(estimator=Rec(base=case["base"]), n_estimators=m, alpha=alpha, n_jobs=case["n_jobs"])
+    ir = layouts.build(IntervalRegressor, dict(estimator=Rec(base=case["base"]), n_estimators=m, alpha=alpha,
+                                               n_jobs=case["n_jobs"]), via,
+                       dict(estimator=Rec(base="dummy"), n_estimators=m + 3, alpha=alpha * 0.5 + 0.1, n_jobs=2))
     try:
         r = ir.fit(Xin, yin) if w is None else ir.fit(Xin, yin, sample_weight=win)
     except Exception as e:
